@@ -29,6 +29,30 @@ type CmdSpec struct {
 	Fails bool
 	// Pending: the handler returns a channel on which nothing is ever sent.
 	Pending bool
+	// Deferred: the handler returns an empty channel; the walker completes it (with an error if
+	// Fails) after the first poll that answered "waiting".
+	Deferred bool
+}
+
+// Deferred completions: channels handed out by deferred handlers and not yet completed. The
+// walkers are single-threaded; the list belongs to the runner being walked.
+type pendingCompletion struct {
+	ch    chan error
+	fails bool
+}
+
+var deferredCompletions []pendingCompletion
+
+// CompleteDeferred completes every command whose handler deferred its completion.
+func CompleteDeferred() {
+	for _, p := range deferredCompletions {
+		if p.fails {
+			p.ch <- errHost
+		} else {
+			p.ch <- nil
+		}
+	}
+	deferredCompletions = nil
 }
 
 // HostSpec is a host configuration from which both the model host and the real registrations
@@ -73,6 +97,13 @@ func (hs *HostSpec) Model() *Host {
 				h.Pending = map[string]bool{}
 			}
 			h.Pending[c.Name] = true
+			continue
+		}
+		if c.Deferred {
+			if h.Deferred == nil {
+				h.Deferred = map[string]bool{}
+			}
+			h.Deferred[c.Name] = c.Fails
 			continue
 		}
 		h.Cmds[c.Name] = func(m *Machine, args []Value) bool {
@@ -122,6 +153,8 @@ func (hs *HostSpec) Install(dr *ysgo.DialogueRunner, log *[]string) {
 			ch := make(chan error, 1)
 			switch {
 			case c.Pending:
+			case c.Deferred:
+				deferredCompletions = append(deferredCompletions, pendingCompletion{ch, c.Fails})
 			case c.Fails:
 				ch <- errHost
 			default:
@@ -285,6 +318,7 @@ func Walk(p *Program, srcs []string, hs *HostSpec, o WalkOpts) (*Mismatch, WalkS
 			log    []string
 		}
 		newRun := func() (*run, error, string) {
+			deferredCompletions = nil
 			x := &run{}
 			if o.NewStorer != nil {
 				x.storer = o.NewStorer()
@@ -349,6 +383,7 @@ func Walk(p *Program, srcs []string, hs *HostSpec, o WalkOpts) (*Mismatch, WalkS
 			}
 			args = append(args, arg)
 			ro := r.Next(arg)
+			CompleteDeferred() // the host completes deferred commands between two calls
 			st.Steps++
 			trace = append(trace, ro.String())
 			if ro.Panic != "" {
@@ -464,14 +499,25 @@ func Walk(p *Program, srcs []string, hs *HostSpec, o WalkOpts) (*Mismatch, WalkS
 			if mo.K == OError {
 				st.Errors++
 				// after an error the runner must stay usable: further calls return
+				waits := 0
 				for i := 0; i < o.AfterError; i++ {
 					ro := r.Next(0)
+					CompleteDeferred()
 					st.Steps++
 					trace = append(trace, ro.String())
 					if ro.Panic != "" {
 						fail("after-error-panic", fmt.Sprintf("call %d after an error panicked: %s", i+1, ro.Panic))
 						return
 					}
+					if ro.Waiting {
+						waits++
+					}
+				}
+				if o.AfterError >= 3 && waits == o.AfterError {
+					// every deferred command is completed between the calls: a runner that keeps
+					// answering "waiting" is stuck on a command that has already reported
+					fail("unusable-after-error", fmt.Sprintf("after the error every one of %d further calls answered ErrWaitingForCommandCompletion although no command is pending", o.AfterError))
+					return
 				}
 				break // what follows an error is not fixed by the properties
 			}
@@ -537,6 +583,7 @@ func FreeWalk(srcs []string, o FreeOpts) *FreeResult {
 		if o.NewStorer != nil {
 			storer = o.NewStorer()
 		}
+		deferredCompletions = nil
 		r, err, pan := NewReal(srcs, seed, storer)
 		if pan != "" {
 			res.LoadPanic = pan
@@ -560,6 +607,7 @@ func FreeWalk(srcs []string, o FreeOpts) *FreeResult {
 		for step := 0; step < o.MaxSteps; step++ {
 			args = append(args, arg)
 			ro := r.Next(arg)
+			CompleteDeferred()
 			res.Steps++
 			if ro.Panic != "" {
 				res.Panic = fmt.Sprintf("Next(%d) panicked at step %d: %s; trace so far %v", arg, step, ro.Panic, trace)
